@@ -20,7 +20,7 @@ def plan(tier):
         if tw:
             for seq, what in ((1, 'setTweak(T1); setTweak(T2)'), (2, 'setTweak(T1); setTweak(NULL)'), (3, 'setTweak(T1); setTweak(NULL); setTweak(T2)'), (4, 'setTweak(T1); setTweak(T2); setTweak(T3)')):
                 if tier == 'quick' and seq not in (3, 4) and not (seq == 2 and k == 'Skinny64_128_Tweaked'): continue
-                if tier == 'quick' and seq == 4 and k not in ('Skinny64_128_Tweaked', 'Skinny128_256_Tweaked'): continue      # quick: the longest history for every class
+                if tier == 'quick' and seq == 4 and k != 'Skinny64_128_Tweaked': continue      # quick: the longest history for every class
                 for d in ((0, 1) if tier == 'thorough' else (0,)):
                     qs.append(q('tweakseq:%s:seq%d:%s' % (k, seq, 'dec' if d else 'enc'), 'forall key, tweaks, block: %s().setKey ; %s ; %sBlock == C library with only the key and the latest tweak (NULL = all-zero)' % (k, what, 'decrypt' if d else 'encrypt'),
                                 dict(base, OB_TWSEQ=1, SEQ=seq, DIR=d)))
